@@ -6,7 +6,11 @@
    reflect.Type of an event             ety (a number);  event = (type, payload id)
    el.handlers[t] []handler             handlers st t : list slot     (callback nil = s_cb None)
    el.waitingEvents[t] []any            waiting st t : list event
-   unregister closures (capture t,i)    tokens st : list (ety * nat), indexed by registration order
+   unregister closures (capture t,i)    tokens st : list (ety * nat * bool), indexed by registration order;
+                                        the flag says the closure has been called: a closure clears only the
+                                        handler it registered, a second call is a no-op (REPAIRED behaviour,
+                                        fixes/C14-unregister-idempotent.patch; [unregister_current] is the
+                                        closure of the unpatched tree, which clears slot (t,i) every time)
    handler bodies                       script : hid -> event -> list action (a handler may call
                                         AddEvent / DelayUntil / Register / an unregister closure,
                                         i.e. re-enter the loop while it is being dispatched)
@@ -42,7 +46,7 @@ Record lstate := mkL {
   lq : queue event;
   handlers : ety -> list slot;
   waiting : ety -> list event;
-  tokens : list (ety * nat);
+  tokens : list (ety * nat * bool);
   log : list entry }.
 
 Definition set_q (st : lstate) (q : queue event) := mkL q (handlers st) (waiting st) (tokens st) (log st).
@@ -64,12 +68,13 @@ Fixpoint find_free (hs : list slot) : option nat :=       (* slices.IndexFunc(ca
               | Some _ => option_map S (find_free r)
               end
   end.
-Fixpoint set_slot (hs : list slot) (i : nat) (s : slot) : list slot :=
-  match hs, i with
+Fixpoint lset {X} (l : list X) (i : nat) (x : X) : list X :=
+  match l, i with
   | [], _ => []
-  | _ :: r, O => s :: r
-  | y :: r, S k => y :: set_slot r k s
+  | _ :: r, O => x :: r
+  | y :: r, S k => y :: lset r k x
   end.
+Definition set_slot (hs : list slot) (i : nat) (s : slot) : list slot := lset hs i s.
 Definition upd {V} (f : ety -> V) (t : ety) (v : V) : ety -> V := fun t' => if N.eqb t' t then v else f t'.
 
 Definition register (st : lstate) (t : ety) (h : hid) (prio runadd : bool) : lstate :=
@@ -79,7 +84,7 @@ Definition register (st : lstate) (t : ety) (h : hid) (prio runadd : bool) : lst
                    | None => (length hs, hs ++ [s])
                    | Some i => (i, set_slot hs i s)
                    end in
-  mkL (lq st) (upd (handlers st) t hs') (waiting st) (tokens st ++ [(t, i)]) (log st).
+  mkL (lq st) (upd (handlers st) t hs') (waiting st) (tokens st ++ [(t, i, false)]) (log st).
 
 Definition clear_cb (hs : list slot) (i : nat) : list slot :=
   match nth_error hs i with
@@ -89,7 +94,18 @@ Definition clear_cb (hs : list slot) (i : nat) : list slot :=
 Definition unregister (st : lstate) (k : nat) : lstate :=
   match nth_error (tokens st) k with
   | None => st                       (* no such closure exists *)
-  | Some (t, i) => mkL (lq st) (upd (handlers st) t (clear_cb (handlers st t) i)) (waiting st) (tokens st) (log st)
+  | Some (t, i, true) => st          (* the closure was called before: nothing to do *)
+  | Some (t, i, false) =>
+      mkL (lq st) (upd (handlers st) t (clear_cb (handlers st t) i)) (waiting st)
+          (lset (tokens st) k (t, i, true)) (log st)
+  end.
+(* the closure of the unpatched tree: clears whatever occupies slot (t,i) now *)
+Definition unregister_current (st : lstate) (k : nat) : lstate :=
+  match nth_error (tokens st) k with
+  | None => st
+  | Some (t, i, _) =>
+      mkL (lq st) (upd (handlers st) t (clear_cb (handlers st t) i)) (waiting st)
+          (lset (tokens st) k (t, i, true)) (log st)
   end.
 
 (* ---- DelayUntil ---- *)
